@@ -533,6 +533,40 @@ def judge_one_file_two_sources(rec, tmp):
         shutil.rmtree(root, ignore_errors=True)
 
 
+def judge_named_rules_file_missing(rec, tmp):
+    """`merchants_file` names a file that is not there (renamed, a typo, last year's settings): tally says so and classifies with NO rules - it does not quietly
+    take a rules file the settings never named that happens to lie in the config folder."""
+    outs = {}
+    for leftover in ('none', 'merchants.rules', 'merchant_categories.csv'):
+        root = os.path.join(tmp, 'named-missing')
+        shutil.rmtree(root, ignore_errors=True)
+        os.makedirs(os.path.join(root, 'config'))
+        os.makedirs(os.path.join(root, 'data'))
+        with open(os.path.join(root, 'config', 'settings.yaml'), 'w') as f:
+            f.write('year: 2025\nmerchants_file: config/rules-2024.rules\ndata_sources:\n  - name: Card\n    file: data/card.csv\n    format: "{date:%Y-%m-%d},{description},{amount}"\n')
+        if leftover == 'merchants.rules':
+            with open(os.path.join(root, 'config', leftover), 'w') as f:
+                f.write('[Pay]\nmatch: contains("ACME")\ncategory: Income\ntags: income\n')
+        elif leftover != 'none':
+            with open(os.path.join(root, 'config', leftover), 'w') as f:
+                f.write('Pattern,Merchant,Category,Subcategory,Tags\nACME,Pay,Income,Salary,income\n')
+        with open(os.path.join(root, 'data', 'card.csv'), 'w') as f:
+            f.write('Date,Description,Amount\n2025-01-03,ACME PAYROLL,-120.00\n2025-01-05,GROCER,31.98\n')
+        p = run_up(root, os.path.join(root, 'config'), 'json')
+        rec.count('cli_runs')
+        try:
+            js = B.json_from_stdout(p.stdout)
+            outs[leftover] = (sorted((m['name'], m['category']) for m in js['merchants']), js['summary'].get('income_total'))
+        except Exception:
+            outs[leftover] = 'no report (exit %d): %s' % (p.returncode, (p.stderr or p.stdout)[-150:])
+        shutil.rmtree(root, ignore_errors=True)
+    rec.case()
+    rec.count('named_rules_file_missing_checks')
+    if outs['merchants.rules'] != outs['none'] or outs['merchant_categories.csv'] != outs['none']:
+        rec.violation('unnamed-rules-file-used', f'merchants_file: config/rules-2024.rules does not exist. Report with an empty config folder: {outs["none"]}; with a left-over '
+                      f'config/merchants.rules: {outs["merchants.rules"]}; with a left-over legacy CSV: {outs["merchant_categories.csv"]}', {'kind': 'named-rules-missing'})
+
+
 def judge_rerun_same_output(rec, rnd, tmp, k):
     """`tally up` run again into the same output folder after a statement or the rules changed: what is on disk afterwards is the report of the
     budget as it is NOW (page and, with --no-embedded-html, the files beside it), also when the new data has the same size as the old."""
@@ -599,6 +633,7 @@ def run(rec, shard, nshards, t):
         if shard == 0:
             judge_transforms_without_rules(rec, tmp)
             judge_one_file_two_sources(rec, tmp)
+            judge_named_rules_file_missing(rec, tmp)
             b = B.gen_budget(rnd)
             rec.sample({'settings': B.settings_dict(b), 'first_file': b['sources'][0]['text'][:300]})
     finally:
@@ -610,6 +645,9 @@ def replay(rec, case):
     rnd = core.rng_for('C11', 'replay')
     tmp = tempfile.mkdtemp(prefix='vt-c11-')
     try:
+        if case.get('kind') == 'named-rules-missing':
+            judge_named_rules_file_missing(rec, tmp)
+            return
         if case.get('kind') == 'one-file-two-sources':
             judge_one_file_two_sources(rec, tmp)
             return
